@@ -58,13 +58,17 @@ func runP1Big(args []string) error {
 			nf, nv, lastVolOnly = 4, 99, true
 		case 8:
 			nf, nv, lastVolOnly = 200, 56, true
+		case 14:
+			nf, nv = 4, 2 // siblings with temporary-file / backup suffixes (see below)
 		}
 		var names []string
 		prot := map[string][]byte{}
 		anyNonEmpty := false
 		for i := 0; i < nf; i++ {
 			name := fmt.Sprintf("%02d-%s", i, uniNames[rng.Intn(len(uniNames))])
-			if i > 0 && (i+idx)%6 == 5 {
+			if idx == 14 {
+				name = []string{"report.doc", "report.doc.tmp", "report.doc~", "report.doc.bak"}[i]
+			} else if i > 0 && (i+idx)%6 == 5 {
 				// a protected file whose name is another protected file's name plus a temporary-file / backup suffix
 				name = names[i-1] + []string{".tmp", "~", ".bak", ".new", ".part"}[rng.Intn(5)]
 			}
@@ -179,6 +183,11 @@ func runP1Big(args []string) error {
 			for v := 1; v <= nv; v++ {
 				vols = append(vols, v)
 			}
+		} else if idx == 14 {
+			// the base file is lost and must be restored while its siblings stay what they are
+			disk[names[0]] = nil
+			dmg = []string{"delete " + names[0]}
+			vols = []int{1, 2}
 		} else if singular {
 			// entries 1 and 8 are destroyed; only volumes 1 and 86 survive: 1^85 = 8^85 in GF(2^8)
 			if gfref.Pow8(1, 85) != gfref.Pow8(8, 85) {
